@@ -107,9 +107,14 @@ Theorem C08_seq_lockstep : forall clamp cap, (forall c, clamp = Some c -> 0 < c)
 Proof. exact seq_lockstep. Qed.
 Print Assumptions C08_seq_lockstep.
 
-(* refuted clause (DESIGN section 5 #22): tls13_send has no clamp; a write above 18415 bytes runs
-   over conn->record *)
-Theorem C08_stream13_oversize_write_faults : forall d r s,
-  cap13 < length d -> run13 (Write d :: r) s = Fault.
-Proof. exact stream13_oversize_write_faults. Qed.
-Print Assumptions C08_stream13_oversize_write_faults.
+(* TLS 1.3 (tls13_send clamps at 2^14 since commit c5b289c): a write of any size succeeds, as
+   non-empty records of at most 2^14 bytes *)
+Theorem C08_stream13_writes_total : forall ops s, (forall o, In o ops -> exists d, o = Write d) ->
+  exists s' recs, run13 ops s = Ok (s', [], recs).
+Proof. exact stream13_writes_total. Qed.
+Print Assumptions C08_stream13_writes_total.
+
+Theorem C08_stream13_record_sizes : forall ops s s' reads recs,
+  run13 ops s = Ok (s', reads, recs) -> Forall (Forall (fun n => 0 < n <= max_plain)) recs.
+Proof. exact stream13_record_sizes. Qed.
+Print Assumptions C08_stream13_record_sizes.
